@@ -134,6 +134,38 @@ Theorem C11_before_applied :
 Proof. exact @before_applied. Qed.
 Print Assumptions C11_before_applied.
 
+Theorem C11_after_applied :
+  forall (F : Type) (r : ruler F) ref name fn alt i c,
+    find (rules r) ref = Some i ->
+    exists a x b,
+      rules r = a ++ x :: b /\ rname x = ref /\
+      compile_chain (rules (fst (step r (OpAfter ref name fn alt)))) c =
+        compile_chain (a ++ [x]) c ++ (if in_chain c (mkRule name true fn alt) then [fn] else [])
+                                   ++ compile_chain b c.
+Proof. exact @after_applied. Qed.
+Print Assumptions C11_after_applied.
+
+Theorem C11_push_applied :
+  forall (F : Type) (r : ruler F) name fn alt c,
+    compile_chain (rules (fst (step r (OpPush name fn alt)))) c =
+      compile_chain (rules r) c ++ (if in_chain c (mkRule name true fn alt) then [fn] else []).
+Proof. exact @push_applied. Qed.
+Print Assumptions C11_push_applied.
+
+(* at(): the other rules' contributions stay; the replaced rule contributes the
+   new function iff it is enabled and its NEW chains include c *)
+Theorem C11_at_applied :
+  forall (F : Type) (r : ruler F) name fn alt i c,
+    find (rules r) name = Some i ->
+    exists a x b,
+      rules r = a ++ x :: b /\ rname x = name /\
+      compile_chain (rules (fst (step r (OpAt name fn alt)))) c =
+        compile_chain a c
+        ++ (if renabled x && in_chain c (mkRule name (renabled x) fn alt) then [fn] else [])
+        ++ compile_chain b c.
+Proof. exact @at_applied. Qed.
+Print Assumptions C11_at_applied.
+
 (* enable / disable twice = once: same rules, same (dropped) cache, same value
    returned or exception raised (rule names unique) *)
 Theorem C11_toggle_idempotent :
